@@ -6,7 +6,7 @@ use crate::explore::*;
 use crate::rmatch::*;
 use serde_json::{Value, json};
 
-const RULE: &str = "selector programs from the grammar S (type, *, #id, .class, [attr] with all six operators and i/s flags, :first-child/:nth-child/:first-of-type/:nth-of-type, :not() with simple, compound, list and nested arguments, compounds, child/descendant chains, selector lists) x every document over a 20-event alphabet (len<=n: nested, mis-nested, stray end tags, void, case variants, duplicate/valueless attributes, foreign self-closing) x {single write, a cut inside every start tag}; each selector is run alone and inside two different groupings; oracle: the set of start tags its element handler ran for == R-match on R-tree; non-trivial = distinct (selector, document) where the expected match set is non-empty";
+const RULE: &str = "selector programs from the grammar S (type, *, #id, .class, [attr] with all six operators and i/s flags, :first-child/:nth-child/:first-of-type/:nth-of-type, :not() with simple, compound, list and nested arguments, compounds, child/descendant chains, selector lists; an exhaustive operator x operand x value slice for the attribute matcher; one rewriter with all 88 simple selectors) x every document over a 20-event alphabet (len<=n: nested, mis-nested, stray end tags, void, case variants, duplicate/valueless attributes, foreign self-closing) x {single write, a cut inside every start tag}; each selector is run alone and inside two different groupings; oracle: the set of start tags its element handler ran for == R-match on R-tree; non-trivial = distinct (selector, document) where the expected match set is non-empty";
 
 fn doc_alphabet() -> Vec<DEv> {
     vec![
@@ -354,6 +354,44 @@ pub fn run_check(ctx: &Ctx) -> i32 {
     }
     let deep = if quick { 7 } else { 9 };
     slice(ctx, &format!("(6) {} counting selectors (:nth-child/:nth-of-type families, alone and in chains) in groups of 20 x every document over {{<a>,<q>,</a>,</q>}} up to length {deep}", csel.len()), &tiny, deep, &jobs_from(csel, 20, true), false);
+    // (7) attribute matcher: every operator x every operand over {a,b,A,-,space} (len 1..3) x
+    // {default, i} against every attribute value over the same alphabet (len <= 4): overlapping
+    // false starts, case folding, dash and whitespace boundaries
+    let chars = ['a', 'b', 'A', '-', ' '];
+    let strings_upto = |max: usize| -> Vec<String> {
+        let mut out = vec![String::new()];
+        let mut layer = vec![String::new()];
+        for _ in 0..max {
+            let mut next = vec![];
+            for s in &layer {
+                for c in chars {
+                    let mut t = s.clone();
+                    t.push(c);
+                    next.push(t);
+                }
+            }
+            out.extend(next.iter().cloned());
+            layer = next;
+        }
+        out
+    };
+    let values = strings_upto(if quick { 4 } else { 5 });
+    let operands: Vec<String> = strings_upto(3).into_iter().filter(|s| !s.is_empty()).collect();
+    let mut asel: Vec<SelList> = vec![];
+    for op in [AttrOp::Eq, AttrOp::Includes, AttrOp::Dash, AttrOp::Prefix, AttrOp::Suffix, AttrOp::Substr] {
+        for o in &operands {
+            for case in [Case::Default, Case::I] {
+                asel.push(SelList::one(Complex::single(Compound::one(attr("k", op, o, case)))));
+            }
+        }
+    }
+    let avals: Vec<DEv> = values.iter().map(|v| DEv::open_a("a", &format!(" j=b k=\"{v}\""), &[("j", "b"), ("k", v)])).collect();
+    slice(ctx, &format!("(7) {} attribute selectors (6 operators x operands over {{a,b,A,-,space}} len 1..3 x {{default,i}}) in groups of 62 x {} attribute values (len<={})", asel.len(), avals.len(), if quick { 4 } else { 5 }), &avals, 1, &jobs_from(asel, 62, true), false);
+    // (8) wide selector sets: all simple selectors registered in ONE rewriter (match ids beyond
+    // one 32-bit word), in two registration orders
+    let mut rev = s1.clone();
+    rev.reverse();
+    slice(ctx, &format!("(8) all {} simple selectors in one rewriter, forward and reversed registration order x D<={}", s1.len(), if quick { 3 } else { 4 }), &full, if quick { 3 } else { 4 }, &[jobs_from(s1.clone(), s1.len(), false), jobs_from(rev, s1.len(), false)].into_iter().flatten().collect::<Vec<_>>(), true);
     ctx.finish(
         "model_checking",
         RULE,
